@@ -301,6 +301,61 @@ def forall_range(n, pred):
     return all(pred(i) for i in range(n))
 
 
+# ghost state and nondeterminism usable in executable contracts (stubs) and lemmas.
+# natively they are plain python: the driver preloads the oracle with the choices of the path replayed.
+_NATIVE_GHOST = {}
+_NATIVE_ORACLE = []
+
+
+def ghost(name):
+    """Per-run ghost list (reset for every path / native run)."""
+    return _NATIVE_GHOST.setdefault(name, [])
+
+
+def nondet(n):
+    """Nondeterministic choice in range(n): every alternative is explored."""
+    if _NATIVE_ORACLE:
+        return _NATIVE_ORACLE.pop(0) % n
+    return 0
+
+
+_NATIVE_LOG = {"exception": 0, "installed": False}
+
+
+def exception_logged():
+    """True when logger.exception(...) was called on an xknx logger since the run started
+    (the 'last-resort guard' of receive handlers). Symbolic: recorded by the logging model."""
+    return _NATIVE_LOG["exception"] > 0
+
+
+def _install_native_log_probe():
+    import logging
+
+    if _NATIVE_LOG["installed"]:
+        return
+
+    class _H(logging.Handler):
+        def emit(self, record):
+            if record.exc_info:
+                _NATIVE_LOG["exception"] += 1
+
+    for name in ("xknx.log", "xknx.knx", "xknx.cemi", "xknx.telegram", "xknx.raw_socket", "xknx.data_secure", "xknx.ip_secure", "xknx.state_updater"):
+        lg = logging.getLogger(name)
+        lg.addHandler(_H())
+    logging.getLogger("xknx").addHandler(_H())
+    _NATIVE_LOG["installed"] = True
+
+
+def assume(cond):
+    """Restrict the inputs considered (a precondition inside a lemma). Natively: skip the run."""
+    if not cond:
+        raise _AssumptionFailed()
+
+
+class _AssumptionFailed(Exception):
+    pass
+
+
 def _register_helper_models():
     from . import stdlib
 
@@ -314,6 +369,27 @@ def _register_helper_models():
         return I.call(pred, [SInt(k)], {})
 
     stdlib.MODELS[forall_range] = m_forall_range
+
+    def m_ghost(I, args, kwargs):
+        return I.path.ghost.setdefault("g:" + args[0], [])
+
+    def m_nondet(I, args, kwargs):
+        k = I.path.choose(args[0], "nondet")
+        I.path.ghost.setdefault("__oracle__", []).append(k)
+        return k
+
+    def m_assume(I, args, kwargs):
+        zb = I.as_z3_bool(args[0])
+        I.path.assume(zb)
+        return None
+
+    def m_exception_logged(I, args, kwargs):
+        return len(I.path.ghost.get("g:log.exception", [])) > 0
+
+    stdlib.MODELS[exception_logged] = m_exception_logged
+    stdlib.MODELS[ghost] = m_ghost
+    stdlib.MODELS[nondet] = m_nondet
+    stdlib.MODELS[assume] = m_assume
 
 
 _register_helper_models()
